@@ -3,6 +3,8 @@ import PharmpyModel.C06.EqHash
 import PharmpyModel.Generated.EqHash
 import PharmpyModel.C06.Effects
 import PharmpyModel.Generated.Effects
+import PharmpyModel.C06.Names
+import PharmpyModel.Generated.Containers
 open Pharmpy Pharmpy.C06
 
 /-- `(a s)`, `(i id content)`, `(f id content)`, `(d (k v)…)`, `(t v…)`, `(o Cls v…)` -/
@@ -16,6 +18,11 @@ partial def valOf? : Sexp → Option Val
       | _ => none)).map Val.dict
   | .list (.atom "t" :: xs) => (xs.mapM valOf?).map (fun vs => .tup (vs.foldr Val.cons .nil))
   | .list (.atom "o" :: .atom c :: xs) => (xs.mapM valOf?).map (fun vs => .obj c (vs.foldr Val.cons .nil))
+  | _ => none
+
+/-- `((n1 n2 …) attrs)` -/
+def itemOf? : Sexp → Option Names.Item
+  | .list [.list ns, .atom a] => (ns.mapM Sexp.asAtom?).map (fun ns => ⟨ns, a⟩)
   | _ => none
 
 def bad : Sexp := .list [.atom "err", .atom "bad-op"]
@@ -35,6 +42,16 @@ def handle (req : Sexp) : Sexp :=
   | .list [.atom "classes"] =>
     .list (T.map (fun sp => .list [.atom sp.name, Sexp.ofBool (classOK T sp.name), Sexp.ofStrs (directBad sp),
                                    Sexp.ofStrs (sp.fields.map (·.name))]))
+  | .list [.atom "combine", .atom c, .atom m, .atom o, refl, .list self, .list other] =>
+    match refl.asBool?, self.mapM itemOf?, other.mapM itemOf?,
+          Generated.containerOps.find? (fun op => op.cls == c && op.method == m && op.operand == o) with
+    | some r, some self, some other, some op =>
+      match Names.combine op.policy r self other with
+      | .ok res => .list [.atom "ok", Sexp.ofStrs (Names.namesOf res), Sexp.ofBool (Names.uniqueNames res),
+                          .atom (match op.policy with | .checked => "checked" | .raw => "raw" | .byValue => "byValue")]
+      | .error n => .list [.atom "err", .atom n]
+    | _, _, _, none => .list [.atom "err", .atom "no-such-op"]
+    | _, _, _, _ => bad
   | .list [.atom "effects"] =>
     .list (Generated.effects.map (fun f => .list [.atom f.name, Sexp.ofBool (Eff.check f), Sexp.ofStrs (Eff.taintedWrites f)]))
   | .list [.atom "unanalysed"] => Sexp.ofStrs Generated.unanalysed
